@@ -50,6 +50,10 @@ Fixpoint frac_ns (w : Z) (ds : str) : Z :=
   | d :: r => dv d * w + frac_ns (w / 10) r
   end.
 
+(* value of a string of decimal digits; used to state that [frac_ns] is the decimal
+   fraction 0.d1d2d3... truncated to whole nanoseconds (proofs/ExpiryProofs.v) *)
+Definition dec_value (ds : str) : Z := fold_left (fun a c => a * 10 + dv c) ds 0.
+
 Inductive hour_text : str -> Z -> Prop :=
 | hour_two a b : digit a -> digit b -> hour_text [a; b] (two a b)
 | hour_one a : digit a -> hour_text [a] (dv a).
